@@ -7,6 +7,7 @@ package main
 import (
 	"fmt"
 	"sort"
+	"sync"
 	"go/constant"
 	"go/types"
 	"strings"
@@ -21,10 +22,10 @@ type model struct {
 
 var models map[string]*model
 
+var modelsOnce sync.Once
+
 func modelFor(key string) *model {
-	if models == nil {
-		initModels()
-	}
+	modelsOnce.Do(initModels)
 	return models[key]
 }
 
